@@ -49,6 +49,12 @@ chk("C16", "model_checking",
     "Trusts secp256k1 recovery and cosmos-sdk authz/vesting; upper-case and malleated encodings of a valid signature carry no expectation on acceptance.",
     "explicit-state BFS to fixpoint over real branch states with reference model + exhaustive routing product at ABCI level", "DESIGN.md §5 C16", "seqx-branch")
 
+chk("C01", "model_checking",
+    "Environment exploration (envx) of the real application built with a generated overlay that routes every Go map range, wall-clock read and go statement of the consensus packages of the current tree through choice hooks: for every history of a 17-kind block alphabet (single txs, order-sensitive kinds paired within a block and across two blocks) every environment policy with at most 1 (thorough: 2) non-default answers over the sites actually hit (iteration order sorted/reversed/rotated per map-range site, wall clock = block time/2000/2100 per site, node min-gas-prices, EVM tracer, a CheckTx/Simulate/eth_call between FinalizeBlock and Commit) is executed on a fresh app, plus fresh-process vs warm-process runs; all executions of one history must give the same AppHash, tx results (code, data, gas wanted/used), events and validator updates.",
+    "Nondeterminism below evermint (cosmos-sdk, IAVL, CometBFT, go-ethereum fork, Go runtime) is not owned; an answer is fixed per site for a whole execution; three orders per map range, not all permutations. The overlay is generated from the working tree at check time (typed rewrite, cmd/instr), nothing is committed to /repo.",
+    "deviation-bounded exhaustive exploration of environment answers (map order, clock, config, query interleaving) over bounded block histories of the real app, instrumented by a generated overlay",
+    "DESIGN.md §3.3, §4, §5 C01", "envx")
+
 NOT_YET = "check not built yet in this round (planned, see DESIGN.md §9)"
 
 def main():
@@ -84,6 +90,10 @@ def main():
              "kind_free_text": "explicit-state BFS below the ABCI level: a state is an sdk.Context over a copy-on-write branch of the real multistore, a transition is one real keeper / EVM call on CacheContext(), dedup on a canonical hash of all stores"},
             {"name": "seqx-replay", "path": "harness/checks", "serves_properties": [k for k,v in sorted(CHECKS.items()) if v["engine"]=="seqx-replay"],
              "kind_free_text": "explicit-state search over operation sequences on the real application; a state is the block list that reaches it, successors are computed by replay on a fresh app instance; sharded over 16 worker processes"},
+            {"name": "envx", "path": "harness/checks/c01.go, harness/cmd/instr, harness/vrt/env.go", "serves_properties": [k for k,v in sorted(CHECKS.items()) if v["engine"]=="envx"],
+             "kind_free_text": "deviation-bounded DFS over environment answers: a typed AST rewriter generates a -overlay that puts every map range, wall-clock read and go statement of the consensus packages behind hooks; the explorer enumerates all policies with <= B non-default answers over the sites hit"},
+            {"name": "schedx", "path": "harness/vrt, harness/sched, harness/cmd/vsched, harness/cmd/instr", "serves_properties": [k for k,v in sorted(CHECKS.items()) if v["engine"]=="schedx"],
+             "kind_free_text": "stateless model checker for the real concurrent code: a generated overlay redirects channels, select, go, sync and time of the target packages to a cooperative scheduler (one thread runs at a time, every visible operation is a scheduling point, enabledness computed from shim state); depth-first enumeration of all schedules with <= B deviations from the default schedule, every execution runs to quiescence; panics in any goroutine and blocked driver threads are violations"},
         ],
         "checks": checks,
         "not_applicable": na,
